@@ -14,10 +14,10 @@ from spec import c03, c08, c10, c01, c02
 LITE = "rf24_lite:RF24"
 
 
-def lite_schema(p0=None, env=None):
+def lite_schema(p0=None, env=None, share="hw"):
     return Obj(LITE, {
-        "_spi": Obj("spec.hw:SpiStub", {"hw": radio_schema(env=env)}),
-        "_ce_pin": Obj("spec.hw:Pin", {"hw": radio_schema(env=env)}),
+        "_spi": Obj("spec.hw:SpiStub", {"hw": radio_schema(env=env, share=share)}),
+        "_ce_pin": Obj("spec.hw:Pin", {"hw": radio_schema(env=env, share=share)}),
         "_status": Int(0, 255),
         "_pipe0_read_addr": p0 if p0 is not None else OneOf(Const(None), Bytes(1, 5), ByteArray(1, 5)),
         # ghost shadows so that the full driver's reference functions run unchanged (never read by lite code)
